@@ -566,6 +566,46 @@ func c27Replay(before, after c27State, groups []*command.CDCIndexedEventGroup, f
 	return ""
 }
 
+// c27ExplainedBySurplus reports whether the replay becomes exact when one
+// contiguous run of events (or two runs, for short sequences) is left out.
+func c27ExplainedBySurplus(before, after c27State, groups []*command.CDCIndexedEventGroup, filter *regexp.Regexp, idsOnly bool, cols map[string][]string) bool {
+	var evs []*command.CDCEvent
+	for _, g := range groups {
+		evs = append(evs, g.Events...)
+	}
+	n := len(evs)
+	try := func(keep func(i int) bool) bool {
+		g := &command.CDCIndexedEventGroup{}
+		for i, ev := range evs {
+			if keep(i) {
+				g.Events = append(g.Events, ev)
+			}
+		}
+		return c27Replay(before, after, []*command.CDCIndexedEventGroup{g}, filter, idsOnly, cols) == ""
+	}
+	for i := 0; i < n; i++ {
+		for j := i + 1; j <= n; j++ {
+			if try(func(k int) bool { return k < i || k >= j }) {
+				return true
+			}
+		}
+	}
+	if n <= 14 {
+		for i := 0; i < n; i++ {
+			for j := i + 1; j <= n; j++ {
+				for k := j + 1; k < n; k++ {
+					for l := k + 1; l <= n; l++ {
+						if try(func(x int) bool { return x < i || (x >= j && x < k) || x >= l }) {
+							return true
+						}
+					}
+				}
+			}
+		}
+	}
+	return false
+}
+
 func c27Touched(groups []*command.CDCIndexedEventGroup, t string, id int64) bool {
 	for _, g := range groups {
 		for _, ev := range g.Events {
@@ -937,13 +977,11 @@ func c27Run(rt *rapid.T, rec *vstat.Rec, env *c27Env, c c27Case) {
 		sig := ""
 		if msg != "" {
 			sig = "C27/replay-mismatch"
-			// only surplus events (describing changes that are not in the
-			// database) can be phantoms of rolled-back work
-			for _, k := range []string{"already exists", "does not exist", "the database does not", "before-image differs", ": events give ", "onto an existing row id"} {
-				if strings.Contains(msg, k) {
-					sig = c27Classify(req, failed)
-					break
-				}
+			// phantom signatures are reserved for discrepancies that are
+			// explained by surplus events: leaving out one (or two) contiguous
+			// runs of events makes the replay exact
+			if c27ExplainedBySurplus(before, after, groups, filter, c.IDsOnly, cols) {
+				sig = c27Classify(req, failed)
 			}
 		} else if m := c27CheckJSON(groups, c.IDsOnly); m != "" {
 			msg, sig = m, "C27/json-envelope-mismatch"
